@@ -8,6 +8,11 @@
 #include <sys/syscall.h>
 #include <linux/futex.h>
 
+extern "C" {
+void __tsan_ignore_thread_begin(const char *, int) __attribute__((weak));
+void __tsan_ignore_thread_end(const char *, int) __attribute__((weak));
+}
+
 namespace rt {
 
 EventLog g_log;
@@ -153,12 +158,15 @@ void sched_yield_point(int site) {
 static void *thread_main(void *arg) {
 	int slot = (int)(intptr_t)arg;
 	t_slot = slot;
+	// simulator code on a simulated thread is invisible to TSan (the executor lifts this around library calls)
+	if (__tsan_ignore_thread_begin) __tsan_ignore_thread_begin(__FILE__, __LINE__);
 	park(slot);
 	g_body(g_slot[slot].task_id, g_body_arg);
 	// task end: hand the token on
 	g_slot[slot].finished = 1;
 	int next = decide(SITE_TASK_END, true);
 	g_cur = next;
+	if (__tsan_ignore_thread_end) __tsan_ignore_thread_end(__FILE__, __LINE__);
 	grant(next);
 	return nullptr;
 }
